@@ -681,6 +681,7 @@ type stageExec struct {
 	exempt    map[string]bool       // names to which a natural PrepareOk failure happened
 	misfed    map[string]bool // names for which some reception fed bytes other than the announced version's
 	failedAt  map[string]int // name -> op number of a `status` answer "failed" with only queries since
+	failedAcross map[string]int // the same, with only queries, crashes, recoveries and settles since
 	servedUnrecovered bool // a request was served between a crash and the next recover
 	lastCrash, lastRecover, lastSettle int // op numbers of the last cut/crash, recover, settle
 	lastTouch map[string]int // token -> number of the last non-query op that mentions it (over-approximates "named in a request")
@@ -831,6 +832,11 @@ func (e *stageExec) oracleHeldTimer(name string) {
 	if err != nil || json.Unmarshal(b, &c) != nil || c.Prev == "" || c.Prev == name {
 		return
 	}
+	if wb, err := os.ReadFile(base + ".wait"); err != nil || md5hex(wb) != c.Hash {
+		// the held copy is not the version the companion describes (a newer version of the name is being received):
+		// a restart does not park it again (named finding superseded_wait_ignored_by_recover, C06)
+		return
+	}
 	if t, ok := e.lastTouch[c.Prev]; ok && t > e.lastCrash {
 		return
 	}
@@ -843,6 +849,26 @@ func (e *stageExec) oracleHeldTimer(name string) {
 		return
 	}
 	e.fails = append(e.fails, fmt.Sprintf("held-without-timer: %s is held behind %s, which the receiver knows nothing about, and no retry timer is pending: the log search for the predecessor never continues", esc(name), esc(c.Prev)))
+}
+
+// latestVersionGood: the version of `name` announced last is logged, or held as `.wait` with its bytes (a failure
+// reported for the name was then that of a stale queue item judging a newer version's bytes by an older hash; the
+// restarted receiver validates what is staged by its own companion).
+func (e *stageExec) latestVersionGood(name string) bool {
+	arr := e.arrivals[name]
+	if len(arr) == 0 {
+		return true
+	}
+	h := e.realHash(arr[len(arr)-1].tok)
+	for _, l := range e.readLog() {
+		if l.name == name && l.hash == h {
+			return true
+		}
+	}
+	if b, err := os.ReadFile(filepath.Join(e.rig.root, name) + ".wait"); err == nil && md5hex(b) == h {
+		return true
+	}
+	return false
 }
 
 func (e *stageExec) partial(n, renamed, prev, size, hash, beg, end string) (*sts.Partial, bool) {
@@ -894,6 +920,11 @@ func (e *stageExec) Do(op []string) string {
 	case "status", "received", "receivedn", "scan", "observe", "mem":
 	default:
 		e.failedAt = map[string]int{} // anything but a query may legitimately change what the receiver holds
+	}
+	switch op[0] {
+	case "status", "received", "receivedn", "scan", "observe", "mem", "crash", "recover", "settle":
+	default:
+		e.failedAcross = map[string]int{}
 	}
 	switch op[0] {
 	case "status", "received", "receivedn", "scan", "observe", "mem", "firetimer", "settle", "oldlog":
@@ -1486,6 +1517,12 @@ func (e *stageExec) do1(op []string) string {
 			e.confirmed[name] = true
 			// C02: "a failed answer never releases the file": a file reported as failed stays failed until it is
 			// sent again; nothing but queries happened since that answer
+			if at, ok := e.failedAcross[name]; ok && e.lastCrash > at && e.lastCrash < e.lastRecover && e.lastRecover < e.lastSettle && !e.latestVersionGood(name) {
+				// C01 "content that does not match its announced hash ... is reported as failed so that the sender transmits
+				// it again": the failed copy and its companion stay on the stage, a restarted receiver validates it again
+				// and keeps saying failed (it must not fall back to an older log record of the name)
+				e.fails = append(e.fails, fmt.Sprintf("failed-forgotten: %s was reported as failed (op %d); after a restart and recovery, with nothing sent in between, it is reported as %d", name, at, code))
+			}
 			if at, ok := e.failedAt[name]; ok {
 				e.fails = append(e.fails, fmt.Sprintf("status-flip: %s was reported as failed (op %d) and is now reported as %d although only queries happened in between", name, at, code))
 			}
@@ -1494,8 +1531,13 @@ func (e *stageExec) do1(op []string) string {
 			if _, ok := e.failedAt[name]; !ok {
 				e.failedAt[name] = e.nOps
 			}
+			if e.failedAcross == nil {
+				e.failedAcross = map[string]int{}
+			}
+			e.failedAcross[name] = e.nOps
 		} else {
 			delete(e.failedAt, name)
+			delete(e.failedAcross, name)
 		}
 		return strconv.Itoa(code)
 	case len(op) == 1 && op[0] == "scan":
